@@ -284,6 +284,7 @@ func kindsOK(k map[string]bool) (bool, string) {
 
 func checkC06(c *Ctx, r *Report, tier string) {
 	round5(c, r, "C06")
+	round6(c, r, "C06")
 	r.Rule("C06.R1", "every iterator is bounded by the group: the options value given to NewIterator has its Prefix stored, before the call, from a constructor that embeds the receiver's group id", 1)
 	r.Rule("C06.R2", "key provenance: every key handed to txn.Get/Set, batch.Set/Delete or iterator.Seek in a method of the log store derives from a group-embedding key constructor or from Item().Key() of a prefix-bounded iterator (the package-level node-id accessors use a constant key: named exception)", 6)
 	r.Rule("C06.R3", "DeleteGroup covers every key family: for each key constructor that reaches a Set, the call tree of DeleteGroup contains a Delete of that family or a prefix sweep whose prefix is a prefix of the family", 3)
@@ -833,8 +834,7 @@ func c06R8(c *Ctx, r *Report, w *walInfo) {
 	// size limit never drops the first entry: in the function that accumulates entry sizes, the break on size > max is
 	// conjoined with "not the first entry"
 	for _, f := range w.funcs {
-		root := rootFn(f)
-		if root.Name() != "getEntries" && root.Name() != "Entries" {
+		if !measuresEntries(f) {
 			continue
 		}
 		for _, ifi := range allIfs(f) {
@@ -847,18 +847,7 @@ func c06R8(c *Ctx, r *Report, w *walInfo) {
 			if b.Op == token.LSS {
 				maxSide = b.X
 			}
-			isMax := false
-			for _, o := range origins(maxSide, originOpt{}) {
-				if p, ok := o.(*ssa.Parameter); ok && strings.Contains(strings.ToLower(p.Name()), "max") {
-					isMax = true
-				}
-				if l, ok := loadOf(o); ok {
-					if fv, ok := l.(*ssa.FreeVar); ok && strings.Contains(strings.ToLower(fv.Name()), "max") {
-						isMax = true
-					}
-				}
-			}
-			if !isMax {
+			if !isSizeLimitOperand(maxSide) {
 				continue
 			}
 			// on the true side another test on a boolean "first" flag must stand between this test and the break
